@@ -603,7 +603,7 @@ func checkIndexRoot(p *Program, r *Report) {
 	st, _ := bs.Underlying().(*types.Struct)
 	idx := -1
 	for i := 0; st != nil && i < st.NumFields(); i++ {
-		if st.Field(i).Name() == "IndexOffset" {
+		if fname(st.Field(i)) == "IndexOffset" {
 			idx = i
 		}
 	}
